@@ -22,6 +22,7 @@ type Outcome struct {
 	Nontrivial   bool
 	Key          uint64   // distinctness hash of the case (input, faults and schedule)
 	States       []uint64 // abstract states visited
+	Sched        uint64   // hash of the scheduling decisions (0: world without scheduler)
 	Faults       map[string]int
 	Probes       map[string]int
 	SimTime      time.Duration
